@@ -451,7 +451,56 @@ def run_model(case):
     return Outcome(None, len(model._parameters) >= 2, labels)
 
 
+# ------------------------------------------------------------------------------------------ sequences
+def strat_seq(tier):
+    from .c11 import strat_map
+    item = st.tuples(strat_map(tier), st.one_of(st.none(), st.floats(0.05, 0.9)), st.sampled_from(["alpha", "exact"])).map(
+        lambda t: {"m": t[0], "constraint": t[1]})
+    return st.fixed_dictionaries({"items": st.lists(item, min_size=2, max_size=4), "route": st.sampled_from(["path", "stream"]),
+                                  "order": st.lists(st.integers(0, 3), min_size=2, max_size=6)})
+
+
+def run_seq(case):
+    """several different models saved and loaded in one process, in a generated order: loading one object must
+    not influence another (no state shared through class-level defaults or caches)."""
+    from .c11 import build_model
+    from holopy.inference.model import LimitOverlaps
+    models = []
+    for it in case["items"]:
+        model, scat, pool, B = build_model(it["m"])
+        if it["constraint"] is not None:
+            model.constraints = [LimitOverlaps(it["constraint"])]
+        models.append(model)
+    labels = ["models_%d" % len(models), case["route"]]
+    first_text = {}
+    for step, idx in enumerate(case["order"]):
+        i = idx % len(models)
+        m = models[i]
+        try:
+            back, text = roundtrip(m, case["route"])
+        except Exception as e:
+            return Outcome(failure("save_load_exception", "model %d: %s at step %d: %s" % (i, type(e).__name__, step, str(e)[:200]), klass="model_sequence", exc=type(e).__name__), True, labels)
+        if i in first_text and first_text[i] != text:
+            return Outcome(failure("sequence_text_changed", "model %d saved at step %d gives different text than the first time" % (i, step)), True, labels)
+        first_text.setdefault(i, text)
+        if [normalise(c) for c in back.constraints] != [normalise(c) for c in m.constraints]:
+            return Outcome(failure("sequence_constraints", "step %d: model %d reloaded with constraints %r, saved with %r" % (step, i, back.constraints, m.constraints)), True, labels)
+        if list(back._parameter_names) != list(m._parameter_names) or [normalise(p) for p in back._parameters] != [normalise(p) for p in m._parameters]:
+            return Outcome(failure("sequence_parameters", "step %d: model %d reloaded with different parameters" % (step, i)), True, labels)
+        text2 = roundtrip(back, case["route"])[1]
+        if text2 != text:
+            return Outcome(failure("text_not_fixpoint", "step %d: saving the reloaded model %d gives different text" % (step, i), klass="model_sequence"), True, labels)
+    distinct = len({i % len(models) for i in case["order"]})
+    return Outcome(None, distinct >= 2, labels)
+
+
 SUBCHECKS = [
+    Sub("model_sequences", strat_seq, run_seq, 600, 10000,
+        "2-4 different models (C11 template generator; with and without LimitOverlaps constraints) saved and loaded in a "
+        "generated order of 2-6 steps inside one process: every reload equals its own original (constraints, parameter "
+        "names, parameters), the text of a model is the same every time it is saved and is a fixpoint; non-trivial = "
+        ">=2 distinct models in the sequence",
+        tolerances={"equality": "exact after normalisation"}),
     Sub("objects", strat_obj, run_obj, 4000, 80000,
         "grammar over priors (Uniform/Gaussian/BoundedGaussian incl. infinite bounds, ComplexPrior, derived priors with "
         "operator.* and numpy ufuncs, named/unnamed, depth<=2), scatterers (Sphere, LayeredSphere, Spheroid, Cylinder, "
